@@ -18,6 +18,10 @@ func (e *Enc) collectNamesImpl() {
 	for _, b := range e.fn.Blocks {
 		for _, in := range b.Instrs {
 			if dr, ok := in.(*ssa.DebugRef); ok {
+				// local variables only (not the field named in a selector expression)
+				if v, isVar := dr.Object().(*types.Var); !isVar || v.IsField() {
+					continue
+				}
 				if id, ok := dr.Expr.(*ast.Ident); ok {
 					dup := false
 					for _, v := range e.names[id.Name] {
